@@ -204,7 +204,7 @@ def binop(E, op, a, b):
         if isinstance(a, tuple) and isinstance(b, tuple):
             return a + b
         if isinstance(a, SList) and isinstance(b, SList):
-            return E.new_heap(SList(a.items + b.items))
+            return E.new_heap(type(a)(a.items + b.items))
         if E.is_strlike(a) != E.is_strlike(b):
             raise PyExc("TypeError", "can only concatenate str to str")
     if op == "%" and E.is_strlike(a):
@@ -236,8 +236,8 @@ def num_binop(E, op, a, b, ka, kb):
             return {"+": a + b, "-": a - b, "*": a * b}[op]
         if op == "+" and ka == "i" and kb == "i":
             # carry-free addition of bit-view integers (x << k) + small: stays in the bit domain
-            a_ok = (isinstance(a, int) and a >= 0) or (isinstance(a, SInt) and a.cells is not None and a._term is None)
-            b_ok = (isinstance(b, int) and b >= 0) or (isinstance(b, SInt) and b.cells is not None and b._term is None)
+            a_ok = (isinstance(a, int) and a >= 0) or (isinstance(a, SInt) and a.cells is not None)
+            b_ok = (isinstance(b, int) and b >= 0) or (isinstance(b, SInt) and b.cells is not None)
             if a_ok and b_ok and (isinstance(a, SInt) or isinstance(b, SInt)):
                 ca, cb = int_cells(a), int_cells(b)
                 w = max(len(ca), len(cb))
@@ -254,6 +254,29 @@ def num_binop(E, op, a, b, ka, kb):
                         break
                 if out is not None:
                     return int_from_cells(out)
+        if ka == "i" and kb == "i" and isinstance(a, SInt) and a.cells is not None \
+           and isinstance(b, int) and not isinstance(b, bool) and b >= 0:
+            if op == "-":
+                # x - c without borrow: every set bit of c meets a constant 1 in x
+                ca = list(a.cells)
+                if b.bit_length() <= len(ca):
+                    okb = True
+                    out = list(ca)
+                    for k in range(b.bit_length()):
+                        if (b >> k) & 1:
+                            pos = len(ca) - 1 - k
+                            x = ca[pos]
+                            if isinstance(x, IRef) or B.norm(x) != 1 or not isinstance(B.norm(x), int):
+                                okb = False
+                                break
+                            out[pos] = 0
+                    if okb:
+                        return int_from_cells(out)
+            if op == "*" and b > 0 and (b & (b - 1)) == 0:
+                return int_from_cells(list(a.cells) + [0] * (b.bit_length() - 1))
+        if op == "*" and ka == "i" and kb == "i" and isinstance(b, SInt) and isinstance(a, int) and not isinstance(a, bool):
+            if b.cells is not None and a > 0 and (a & (a - 1)) == 0:
+                return int_from_cells(list(b.cells) + [0] * (a.bit_length() - 1))
         if ka == "i" and kb == "i":
             ta, _ = to_z3_num(a)
             tb, _ = to_z3_num(b)
@@ -345,6 +368,28 @@ def num_binop(E, op, a, b, ka, kb):
     raise Unsupported("numeric operator " + op)
 
 
+def _bounded_nonneg(E, v):
+    """for a symbolic int whose interval bounds do not show 0 <= v < 2**k: ask the solver (the interval
+    analysis does not see the path condition)"""
+    if not isinstance(v, SInt) or int_cells(v) is not None:
+        return v
+    try:
+        if E.feasible_spec(v.term < 0):
+            return v
+        hi = v.hi
+        if hi is None or hi < 0:
+            hi = None
+            for k in (8, 16, 32, 64):
+                if not E.feasible_spec(v.term >= (1 << k)):
+                    hi = (1 << k) - 1
+                    break
+            if hi is None:
+                return v
+        return SInt(v.term, None, 0, hi)
+    except Exception:
+        return v
+
+
 def bit_binop(E, op, a, b):
     if isinstance(a, Fraction) or isinstance(b, Fraction) or isinstance(a, SReal) or isinstance(b, SReal):
         raise PyExc("TypeError", "unsupported operand type(s) for %s: float" % op)
@@ -358,6 +403,7 @@ def bit_binop(E, op, a, b):
             b = E.concretize_int(b, "shift amount")
         if b < 0:
             raise PyExc("ValueError", "negative shift count")
+        a = _bounded_nonneg(E, a)
         ca = int_cells(a)
         if ca is None:
             # arithmetic fall-back (exact for any sign): x << k = x*2^k ; x >> k = floor(x / 2^k)
@@ -367,6 +413,8 @@ def bit_binop(E, op, a, b):
         if op == "<<":
             return int_from_cells(ca + [0] * b)
         return int_from_cells(ca[: len(ca) - b] if b < len(ca) else [0])
+    a = _bounded_nonneg(E, a)
+    b = _bounded_nonneg(E, b)
     ca, cb = int_cells(a), int_cells(b)
     if ca is None or cb is None:
         raise Unsupported("bit operation on possibly negative symbolic integer")
@@ -1273,8 +1321,48 @@ def m_lower(E, s, a, k):
     raise Unsupported("lower on %r" % type(s).__name__)
 
 
+def char_code_value(E, ch):
+    """character -> code point value that keeps a bit view: '0'/'1' characters become 0b11000b"""
+    if isinstance(ch, str):
+        return ord(ch)
+    if isinstance(ch, SBin):
+        return int_from_cells([1, 1, 0, 0, 0, ch.cells[0]])
+    code = E.char_code(ch)
+    if isinstance(code, int):
+        return code
+    r = SInt(code, None, 48, 102)
+    if isinstance(ch, SHex):
+        r.origin = ("hexchar", list(ch.cells))
+    return r
+
+
 def m_encode(E, s, a, k):
-    return s
+    chars = E.str_chars(s)
+    if chars is None:
+        raise Unsupported("encode of variable-length string")
+    return E.new_heap(SByteList([char_code_value(E, c) for c in chars]))
+
+
+def bytes_decode(E, l, a, k):
+    out = []
+    for c in l.items:
+        c = E.force(c)
+        if isinstance(c, bool):
+            c = int(c)
+        if isinstance(c, int):
+            out.append(chr(c))
+            continue
+        if isinstance(c, SInt):
+            cells = c.cells
+            if cells is not None and c._term is None:
+                cc = [B.norm(x) if not isinstance(x, IRef) else x for x in cells]
+                if len(cc) == 6 and cc[:5] == [1, 1, 0, 0, 0]:
+                    out.append(SBin([cells[5]]))
+                    continue
+            out.append(SChr(c.term))
+            continue
+        raise Unsupported("decode of non-integer byte")
+    return mkstr(out) if out else ""
 
 
 def m_startswith(E, s, a, k):
@@ -1349,7 +1437,7 @@ def l_insert(E, l, a, k):
     l.items.insert(E.concretize_int(a[0]), a[1])
 
 
-LIST_METHODS = {"append": l_append, "extend": l_extend, "__getitem__": l_getitem, "copy": l_copy,
+LIST_METHODS = {"decode": bytes_decode, "append": l_append, "extend": l_extend, "__getitem__": l_getitem, "copy": l_copy,
                 "sort": l_sort, "pop": l_pop, "index": l_index, "insert": l_insert}
 
 
@@ -1661,6 +1749,40 @@ def make_math():
         "floor": Builtin("math.floor", lambda E, a, k: b_int(E, [np_floor(E, a, k)], {})),
         "pi": LazyPi(),
     })
+
+
+def rt_bytes(E, args, kw):
+    if not args:
+        return E.new_heap(SByteList([]))
+    v = E.force(args[0])
+    if isinstance(v, SByteList):
+        return E.new_heap(SByteList(v.items))
+    if isinstance(v, int):
+        return E.new_heap(SByteList([0] * v))
+    if isinstance(v, SList):
+        return E.new_heap(SByteList(v.items))
+    raise Unsupported("bytes() of %r" % type(v).__name__)
+
+
+def rt_as_char(E, args, kw):
+    v = E.force(args[0])
+    if E.is_strlike(v):
+        if E.seq_len(v) != 1:
+            raise PyExc("ValueError", "only single character unicode strings can be converted to Py_UCS4")
+        return char_code_value(E, v)
+    return v
+
+
+def rt_array(E, args, kw):
+    return E.new_heap(SList(E.iterate(E.force(args[1]))))
+
+
+def make_pyx_runtime():
+    arr = StubModule("array", {"array": Builtin("array.array", rt_array)})
+    return StubModule("vc_pyx_runtime", {
+        "array": arr, "bytes": Builtin("bytes", rt_bytes), "bytearray": Builtin("bytearray", rt_bytes),
+        "PyBytes_GET_SIZE": Builtin("len", b_len), "PyByteArray_GET_SIZE": Builtin("len", b_len),
+        "_as_char": Builtin("_as_char", rt_as_char)})
 
 
 def b_wrap(E, args, kw):
